@@ -114,6 +114,7 @@ def run(rep: vk.Report):
     kinds_hist = {}
     nontrivial = set()
     param_sets = [0]
+    alias_probes = [0]
     partial, partial_meta = [], []
     def stream():
         k = 0
@@ -194,6 +195,47 @@ def run(rep: vk.Report):
                 kinds_hist[k] = kinds_hist.get(k, 0) + 1
             if len(ks) >= 2:
                 nontrivial.add(te)
+        # ---- call histories with the caller's OBJECTS reused: the same point dict / array updated in place between two calls, and the same
+        # expression compiled again for a layout in which its variables keep their relative order but sit one slot further right
+        if fns is not None and V:
+            names_ = [v.name for v in V]
+            pa, pb = common.pick_point(rng, names_), common.pick_point(rng, names_)
+            xa, xb = np.array([pa[nm] for nm in names_], dtype=float), np.array([pb[nm] for nm in names_], dtype=float)
+            with np.errstate(all="ignore"):
+                ea, eb = call(e.evaluate, dict(pa)), call(e.evaluate, dict(pb))
+            if ea is not None and eb is not None:
+                alias_probes[0] += 1
+                d_ = dict(pa)
+                with np.errstate(all="ignore"):
+                    v1 = call(e.evaluate, d_)
+                    d_.update(pb)                      # the SAME mapping object, updated in place (a sweep / line search)
+                    v2 = call(e.evaluate, d_)
+                tol_ = 1e-9 * max(1.0, abs(eb))
+                if v2 is None or abs(v2 - eb) > tol_ or v1 is None or abs(v1 - ea) > 1e-9 * max(1.0, abs(ea)):
+                    rep.violation({"kind": "history", "obligation": "evaluate() reads the mapping it is given at every call (same dict object updated in place)",
+                                   "witness": {"expr": te[:1500], "first_point": pa, "second_point": pb, "first": v1, "second": v2,
+                                               "expected_first": ea, "expected_second": eb}}, concrete=True)
+                for nm_, (f_, takes_dict) in fns.items():
+                    if takes_dict or nm_ == "evaluate":
+                        continue
+                    bad_ = common.alias_probe(lambda a_, f_=f_: np.float64(f_(a_)), xa, xb, lambda a_: np.float64(eb), rtol=1e-9)
+                    if bad_:
+                        rep.violation({"kind": "history", "obligation": "a compiled callable reads the array it is given at every call",
+                                       "witness": dict(bad_, expr=te[:1500], path=nm_, V=names_)}, concrete=True)
+                # the same object compiled for [front] + V
+                try:
+                    import optyx.core.compiler as C_
+                    front = Variable("aa_front") if "aa_front" not in names_ else Variable("a0_front")
+                    f_shift = C_.compile_expression(e, [front] + list(V))
+                    with np.errstate(all="ignore"):
+                        vs_ = call(f_shift, np.concatenate([[7.25], xb]))
+                    if vs_ is None or abs(vs_ - eb) > tol_:
+                        rep.violation({"kind": "history", "obligation": "the same expression compiled for a second layout (one unused variable in front) returns its value",
+                                       "witness": {"expr": te[:1500], "first_layout": names_, "second_layout": [front.name] + names_, "point": pb,
+                                                   "compiled_for_second_layout": vs_, "evaluate": eb}}, concrete=True)
+                except Exception as ex:
+                    rep.violation({"kind": "exception", "obligation": "every API-built scalar expression can be compiled (build_total)",
+                                   "expr": te[:1500], "V": ["<front>"] + names_, "error": repr(ex)[:300]}, concrete=True)
         for n, p in params.items():
             p.set(saved[n])
     # ---- the formula as the user WROTE it: API constructions against an independent NumPy function of the element values
@@ -272,6 +314,7 @@ def run(rep: vk.Report):
     cov["exceptions"] = errors
     cov["correspondence_failures"] = len(fails)
     cov["formulas_as_written_checked_against_numpy"] = written
+    cov["call_histories_with_reused_objects"] = alias_probes[0]
     cov["formulas_as_written_construction_errors"] = written_err
     cov["traces_validated_against_impl"] = (len(cases) - len(und)) * 6
     rep.assumptions += ["binary64 primitives are within one outward rounding at 40 bits of the exact operation (numeric channel)",
